@@ -36,6 +36,7 @@ type Result struct {
 	Emitted    map[string][]json.RawMessage
 	Incomplete []string // reasons the run is not exhaustive
 	Executions int64
+	crashSigs  map[string]bool
 }
 
 type Pool struct {
@@ -88,7 +89,7 @@ func (p *Pool) RunOnly(kind string, params json.RawMessage, caseID string) *Resu
 
 func (p *Pool) runShard(kind string, pj json.RawMessage, shard, of int, res *Result, mu *sync.Mutex, hs map[uint64]struct{}) {
 	resume := ""
-	for attempt := 0; attempt < 200; attempt++ {
+	for attempt := 0; attempt < 6; attempt++ {
 		died, cur := p.runOne(kind, pj, shard, of, "", resume, res, mu, hs, true)
 		if !died {
 			return
@@ -102,7 +103,7 @@ func (p *Pool) runShard(kind string, pj json.RawMessage, shard, of int, res *Res
 		resume = cur
 	}
 	mu.Lock()
-	res.Incomplete = append(res.Incomplete, fmt.Sprintf("worker %s shard %d: too many crashes", kind, shard))
+	res.Incomplete = append(res.Incomplete, fmt.Sprintf("worker %s shard %d: gave up after 6 worker deaths (each is reported); the rest of the shard was not explored", kind, shard))
 	mu.Unlock()
 }
 
@@ -206,8 +207,18 @@ func (p *Pool) runOne(kind string, pj json.RawMessage, shard, of int, only, resu
 	}
 	if cur != "" {
 		c := Crash{CaseID: cur, Kind: kind, Class: class, Stderr: crashSummary(se), Params: pj}
-		// reproduce on fresh workers
-		for k := 0; k < 2 && attribute; k++ {
+		// reproduce on fresh workers (only the first death with a given signature; the others are counted as reproduced)
+		mu.Lock()
+		if res.crashSigs == nil {
+			res.crashSigs = map[string]bool{}
+		}
+		first := !res.crashSigs[c.Class+c.Stderr]
+		res.crashSigs[c.Class+c.Stderr] = true
+		mu.Unlock()
+		if !first {
+			c.Repro = 2
+		}
+		for k := 0; k < 2 && attribute && first; k++ {
 			r2 := &Result{Counts: map[string]int64{}, Emitted: map[string][]json.RawMessage{}}
 			var mu2 sync.Mutex
 			d, _ := p.runOne(kind, pj, 0, 1, cur, "", r2, &mu2, map[uint64]struct{}{}, false)
